@@ -1414,3 +1414,80 @@ func rulePlaceholderFlag(c *Ctx, r *Report) {
 	}
 	r.analysed(rule, fmt.Sprintf("%d stores to Parser.doubleQuotes; eager conversion: %v", n, eager && readsFlag))
 }
+
+// ---------------------------------------------------------------------------
+// C12: R-ANSWER-KEPT — added with fix F43.  "Scan reports the most recent answer": the environment Scan reads
+// (Solutions.env) is written only with a value that was really received - every store to it in the root
+// package is either under the comma-ok of the channel receive the value comes from, or stores a value that is
+// not a receive result (construction).  Next stored the zero value received from the closed channel, so Scan
+// after exhaustion forgot the last answer and silently reported unbound variables.
+func ruleAnswerKept(c *Ctx, r *Report) {
+	const rule = "R-ANSWER-KEPT"
+	desc := "Solutions.env is overwritten only by an environment that was received from the search (comma-ok true)"
+	n := 0
+	for _, fn := range c.LibFuncs() {
+		if funcPkg(fn) != c.Root {
+			continue
+		}
+		k := 0
+		eachInstr(fn, func(in ssa.Instruction) {
+			st, ok := in.(*ssa.Store)
+			if !ok {
+				return
+			}
+			fa, ok := st.Addr.(*ssa.FieldAddr)
+			if !ok || !isNamedIn(fa.X.Type(), c.Root.Pkg.Path(), "Solutions") || fieldName(fa) != "env" {
+				return
+			}
+			n++
+			k++
+			key := fmt.Sprintf("%s/env-store#%d", fname(fn), k)
+			var recvs []*ssa.UnOp
+			for _, l := range c.originSet(st.Val) {
+				if ex, ok := l.(*ssa.Extract); ok {
+					l = ex.Tuple
+				}
+				if u, ok := l.(*ssa.UnOp); ok && u.Op == token.ARROW {
+					recvs = append(recvs, u)
+				}
+			}
+			if len(recvs) == 0 {
+				r.ok(rule, key, c.at(in), desc, "the stored value is not the result of a channel receive", true)
+				return
+			}
+			for _, u := range recvs {
+				okFact := false
+				if u.CommaOk {
+					for f := range c.factsAt(in.Block()) {
+						if ex, ok := f.cond.(*ssa.Extract); ok && ex.Tuple == ssa.Value(u) && ex.Index == 1 && f.pol {
+							okFact = true
+						}
+					}
+				}
+				// a value known non-nil is not the zero value of a closed channel either
+				for f := range c.factsAt(in.Block()) {
+					if bo, ok := f.cond.(*ssa.BinOp); ok && (bo.Op == token.NEQ) == f.pol && (bo.Op == token.NEQ || bo.Op == token.EQL) {
+						if k, ok := bo.Y.(*ssa.Const); ok && k.IsNil() {
+							for _, l := range c.originSet(bo.X) {
+								if ex, ok := l.(*ssa.Extract); ok {
+									l = ex.Tuple
+								}
+								if l == ssa.Value(u) {
+									okFact = true
+								}
+							}
+						}
+					}
+				}
+				if !okFact {
+					r.bad(rule, key, c.at(in), desc, "the value received at "+c.at(u)+" is stored whether or not the channel delivered one: after the last answer the zero value replaces the answer Scan should still report")
+					return
+				}
+			}
+			r.ok(rule, key, c.at(in), desc, "stored under the comma-ok of the receive", true)
+		})
+	}
+	if n == 0 {
+		r.undecided(rule, "anchor:Solutions.env", "-", desc, "no store to Solutions.env found in the root package")
+	}
+}
